@@ -97,6 +97,13 @@ def table_present(p):
 
 def run_config(ctx, rep, cfg, F, walkers=None, ctors=None, extras=True, floor=90):
     n = 0
+    tys = {k[1:].split(" as ")[0] for k in (walkers if walkers is not None else WALKERS) if k.startswith("<")}
+    if extras:
+        tys |= {"Keys", "Values", "IntoKeys", "IntoValues", "ValuesMut", "set::Iter", "set::IntoIter"}
+    else:
+        tys |= {"ValuesMut"}
+    n_it = C.check_iterator_overrides(rep, F, "R03.1", lambda t: t in tys)
+    rep.floor("Iterator impls inspected for overridden provided methods (%s)" % cfg, n_it, 2)
     for short, fmt in (walkers if walkers is not None else WALKERS).items():
         if short not in F.short:
             rep.bad("R03.1", short, "missing", "%s not found" % short, kind="unrecognised", config=cfg)
